@@ -13,12 +13,24 @@ SHARD = 400
 IMPL_PARALLEL = True
 TRUSTED = ['hand-written Gallina mirror of bipartite_graph.py (Model/Bipartite.v) tied to the code by exact agreement on every generated graph',
            'brute-force / augmenting-path reference implementations in harness/props/c18.py (search only)']
-PARTIAL = ('proved for all graphs: weak duality and the optimality certificate (a matching and a cover of equal size are maximum / minimum), '
-           'soundness of the boolean certificate checkers, validity of the Hopcroft-Karp state as a matching (see Properties/C18.v for the current list); '
-           'the certificate is evaluated by the kernel on every generated graph. '
-           'Not proved for all graphs: completeness of Hopcroft-Karp (that the size assertion can never fire / termination within the fuel); '
-           'covered exhaustively up to the stated partition sizes.')
-ASSUMPTIONS = ['CPython set iteration order does not influence minimum_vertex_cover (results are combined by set operations and sorted)']
+PARTIAL = ('Nothing in the property statement is left unproved about the model. Proved in Coq for ALL graphs and sizes '
+           '(Properties/C18.v, every theorem closed under the global context): '
+           'C18_mvc_total — for every in-range edge list (no edges and duplicate edges included) HopcroftKarp() and minimum_vertex_cover() '
+           'both return: no fuel of outer (nu+2 phases) / bfs_loop (nu+2 dequeues) / dfs / explore (depth nu+2) is exhausted and the size '
+           'assertion |cover| = |matching| passes; the matching consists of existing pairwise vertex-disjoint edges and is MAXIMUM; the cover '
+           'lists are in range, strictly increasing, touch every edge, have total size equal to the maximum matching size (Koenig) and are '
+           'therefore MINIMUM. Intermediate theorems: C18_mk_bg_edges (constructor: edge set = list, duplicates suppressed, adj_v transpose of adj_u), '
+           'C18_hk_matching_valid (mu/mv invariant through bfs/dfs/phase/outer), C18_hk_maximum and C18_hk_total_maximum (HopcroftKarp() alone '
+           'terminates and is maximum: BFS layering invariant, a failing DFS removes only vertices without layered path to NIL, every phase augments), '
+           'C18_bfs_terminates, C18_konig_cover_valid / C18_cover_of_any_matching (cover valid for any matching), C18_weak_duality, '
+           'C18_certificate_optimal, C18_mvc_certified, C18_checkers_sound. '
+           'Outside the model, hence not covered by these theorems: the interpreter recursion limit (see assumptions); the link between model '
+           'and code is the exact correspondence check on the generated graphs.')
+ASSUMPTIONS = ['CPython set iteration order does not influence minimum_vertex_cover (results are combined by set operations and sorted)',
+               'the recursion of __add_augmenting_path and _explore_alternating_paths stays below sys.getrecursionlimit(): the proved depth bound is '
+               'num_u + 2, but with the default limit of 1000 a graph with an alternating path through more than ~1000 U-vertices makes the real '
+               'routines raise RecursionError (observed: n=1200, edges (i,i) for i<n-1, (i,i-1) for i>=1, (0,n-1): HopcroftKarp() and '
+               'minimum_vertex_cover() both raise RecursionError; n=600 is fine)']
 
 
 def _shuffle_dup(rng, edges):
